@@ -4,6 +4,8 @@ import (
 	"encoding/json"
 	"fmt"
 	"io"
+	"math"
+	"strconv"
 	"strings"
 
 	"verif/sim/kernel"
@@ -64,6 +66,40 @@ func bigDoc(r *kernel.Rand, id int) string {
 	}
 	sb.WriteString("]}")
 	return sb.String()
+}
+
+// floatLiteral draws a float64 from every rendering class (integral values on both sides of 2^53,
+// the fixed/exponent notation thresholds, subnormals, huge values, short and long mantissas) and
+// returns it as a jq number literal, which the query evaluates to a computed float64.
+func floatLiteral(r *kernel.Rand) string {
+	var f float64
+	switch r.Intn(8) {
+	case 0: // integral, around and above 2^53
+		f = math.Ldexp(float64(1+r.Intn(1<<20))+float64(r.Intn(1<<20))/(1<<20), r.Range(33, 50))
+		f = math.Floor(f)
+	case 1: // integral, 2^53 .. 2^70
+		f = math.Floor(math.Ldexp(1+r.Float(), r.Range(53, 70)))
+	case 2: // near the notation thresholds
+		f = kernel.Pick(r, []float64{1e-7, 1e-6, 1e-5, 1e15, 1e16, 1e17, 1e20, 1e21, 1e22}) * (1 + (r.Float()-0.5)/float64(kernel.Pick(r, []int{1, 1000, 1000000000})))
+	case 3: // any exponent
+		f = math.Ldexp(1+r.Float(), r.Range(-1074, 1023))
+	case 4: // short decimal mantissas
+		f = float64(r.Range(1, 9999)) * math.Pow(10, float64(r.Range(-30, 30)))
+	case 5: // subnormal
+		f = math.Ldexp(float64(1+r.Intn(1000)), -1074)
+	case 6: // small integral floats and halves
+		f = float64(r.Range(-100000, 100000)) / float64(kernel.Pick(r, []int{1, 2, 4, 8, 10, 3}))
+	default: // neighbours of powers of two
+		f = math.Nextafter(math.Ldexp(1, r.Range(-60, 80)), float64(r.Range(-1, 1)*2)*math.MaxFloat64)
+	}
+	if r.Bool(0.3) {
+		f = -f
+	}
+	s := strconv.FormatFloat(f, 'e', -1, 64)
+	if !strings.ContainsAny(s, ".") { // make sure the literal is read as a float, not an integer
+		s = strings.Replace(s, "e", ".0e", 1)
+	}
+	return s
 }
 
 // trickyString: 0-40 characters over an alphabet of everything an encoder treats specially
@@ -157,6 +193,10 @@ func genC15Query(r *kernel.Rand, ndocs int, allowInput bool) string {
 		if r.Bool(0.06) {
 			it = kernel.Pick(r, []string{"%s", "[%s]", "{k: %s}", "{(%s): 1}"})
 			it = fmt.Sprintf(it, trickyString(r))
+		}
+		if r.Bool(0.08) {
+			f := floatLiteral(r)
+			it = strings.ReplaceAll(kernel.Pick(r, []string{"F", "[F, -(F)]", "{f: F}", "(F | ., . * 2, . / 3, floor)", "(F | tostring, tojson)", "(F + (.id? // 0))", "[F] | .[0]", "(F | debug)"}), "F", f)
 		}
 		parts = append(parts, it)
 	}
